@@ -84,7 +84,7 @@ PROPS = {
             "trusted": ["the recording layer (_RecRaw under the interpreter's own BufferedWriter/TextIOWrapper); strace agreement is checked in the thorough tier"],
             "theorems_relying": "ICG.C20.atomicB_atomic / atomic (observed list accepted by atomicB => old-or-new at every k); ICG.C20.truncate_not_atomic (present code)",
             "quick_s": 60, "thorough_s": 600},
-    "C11": {"lean": "ICG.Props.C11", "streams": [("corr_search", "C11")], "quick_s": 60, "thorough_s": 600,
+    "C11": {"lean": ["ICG.Props.C11", "ICG.Lemmas.ComposeSearch"], "streams": [("corr_search", "C11")], "quick_s": 60, "thorough_s": 600,
             "rule": ("cases = (n ∈ {3,4}, hidden game from the closure int/dyadic games or the repo generators noisy_factory/graph/xos, start ⊇ minimal plus 0..2 extra coalitions, k, "
                      "one of five (computer, gap function) pairs — three computers, all four gap functions); scratch game poisoned with stale values and bounds; processes {1,2,3,5,16} "
                      "quick, 1..16 thorough; meta-game at n=3 (all) and n=4 (sampled); best-states on a replayable generator; observed pool chunking against the model; "
@@ -127,7 +127,7 @@ PROPS = {
                      "families, 1e-12 relative elsewhere; oracle: returns, n, length 2^n, float64, finite, v[0]==0, SA (exact rationals, rtol 1e-9), monotone for XOS/XS/OXS/budget/coverage, "
                      "seed-determinism except graph_generator keys and predictible_factory. non-trivial = >=3 distinct values and not symmetric under any transposition; distinct by (key,n,seed)"),
             "trusted": ["numpy distributions stay in their documented ranges; networkx graph generators"]},
-    "C09": {"lean": "ICG.Props.C09", "streams": [("corr_env", "C09")], "quick_s": 60, "thorough_s": 600, "rule": _ENV_RULE,
+    "C09": {"lean": ["ICG.Props.C09", "ICG.Props.Compose", "ICG.Lemmas.ComposeCore"], "streams": [("corr_env", "C09")], "quick_s": 60, "thorough_s": 600, "rule": _ENV_RULE,
             "assumptions": ["bound computer and gap function are parameters of the theorems; the stream takes bounds and gaps from the real code on a fresh real game with the same knowledge",
                             "the normalised hidden game is an input (real normalize_game); 'reward never positive' is proved under the hypothesis that the gap is non-negative (C07)"]},
     "C13": {"lean": ["ICG.Props.C13", "ICG.Lemmas.ExpectedGreedy"], "streams": [("corr_env", "C13"), ("corr_search", "C13greedy")], "quick_s": 90, "thorough_s": 900,
